@@ -158,6 +158,80 @@ class ZipIter(Stateful):
         return True, tuple(vals)
 
 
+class SymList:
+    """A Python list of symbolic length whose items are arrays (ragged: item s has lens(s) rows), as it exists at a loop cut point.
+
+    Ghost state supplied by the loop contract: ``off`` with off(0) = 0 and off(s+1) = off(s) + lens(s) -- the prefix offsets of the rows.
+    append() keeps the ghost consistent by an obligation (off(n+1) = off(n) + rows of the appended item)."""
+
+    def __init__(self, length, item, lens=None, off=None, scalar=False):
+        self.length = length
+        self.item = item          # s -> Arr (or scalar when scalar=True)
+        self.lens = lens          # s -> number of rows of item s
+        self.off = off            # ghost prefix offsets (z3 function Int -> Int) or None
+        self.scalar = scalar
+
+    def append(self, eng, v):
+        I, M = _I(), _M()
+        v = M.unwrap(v)
+        n, old_item, old_lens = self.length, self.item, self.lens
+        if self.scalar:
+            if not T.is_scalar(v):
+                raise Unsupported("append of a non-scalar to a symbolic list of scalars")
+            self.item = lambda s_, v=v: T.ite(T.compare("eq", s_, n), v, old_item(s_))
+            self.length = T.add(n, 1)
+            return
+        if not isinstance(v, I.Arr) or v.ndim < 1:
+            raise Unsupported("append of a non-array to a symbolic list of arrays")
+        if self.off is not None:
+            eng.oblige("ghost/offsets-advance-by-the-rows-of-the-appended-item",
+                       self.off(T.zi(n) + 1) == self.off(T.zi(n)) + T.zi(v.shape[0]), kind="inv-step")
+        rows = v.shape[0]
+        rest, fn, dt = tuple(v.shape[1:]), v.fn, v.dtype
+
+        def item(s_):
+            o = old_item(s_)
+            if not isinstance(o, I.Arr) or tuple(o.shape[1:]) != rest and not all(M.dim_eq(a, b) for a, b in zip(o.shape[1:], rest)):
+                raise Unsupported("ragged list items of different trailing shape")
+            of = o.fn
+            c = T.compare("eq", s_, n)
+            return I.Arr((T.ite(c, rows, o.shape[0]),) + rest, lambda *i: T.ite(c, fn(*i), of(*i)), M.dtype_join(dt, o.dtype))
+        self.item = item
+        self.lens = (lambda s_: T.ite(T.compare("eq", s_, n), rows, old_lens(s_))) if old_lens is not None else None
+        self.length = T.add(n, 1)
+
+
+def concat_symlist(eng, lst, ndim_out):
+    """np.vstack / np.hstack / np.concatenate(axis=0) of a ragged symbolic list: the array of off(n) rows whose segment s, starting at row
+    off(s), is item s.  The defining property is instantiated at the harness's generic (segment, row) pairs (eng.generic_segments)."""
+    I, M = _I(), _M()
+    if lst.off is None or lst.lens is None or lst.scalar:
+        raise Unsupported("concatenation of a symbolic list without ghost offsets")
+    n = T.zi(lst.length)
+    total = lst.off(n)
+    probe = lst.item(T.fresh("probe", "int"))
+    rest = tuple(probe.shape[1:])
+    if any(T.is_sym(d) for d in rest):
+        raise Unsupported("ragged concatenation with symbolic trailing shape")
+    if len(rest) + 1 != ndim_out:
+        raise Unsupported("ragged concatenation of items of unexpected rank")
+    sort = z3.IntSort() if probe.dtype == "int" else (z3.BoolSort() if probe.dtype == "bool" else z3.RealSort())
+    cat = z3.Function(f"concat!{T.fresh('c', 'int')}", *([z3.IntSort()] * ndim_out + [sort]))
+    eng.add_axiom(lst.off(0) == 0)
+    for (s_, t_) in getattr(eng, "generic_segments", []):
+        s_, t_ = T.zi(s_), T.zi(t_)
+        it = lst.item(s_)
+        inside = z3.And(s_ >= 0, s_ < n, t_ >= 0, t_ < T.zi(it.shape[0]))
+        import itertools as _it
+        eqs = []
+        for idx in _it.product(*[range(d) for d in rest]):
+            eqs.append(cat(lst.off(s_) + t_, *[z3.IntVal(c) for c in idx]) == (T.zr(it.fn(t_, *idx)) if probe.dtype == "real" else it.fn(t_, *idx)))
+        eng.add_axiom(z3.Implies(inside, z3.And(*eqs)))
+        # prefix offsets of non-negative row counts: segment s ends before the total (monotone prefix sums)
+        eng.add_axiom(z3.Implies(z3.And(s_ >= 0, s_ < n), z3.And(lst.off(s_ + 1) == lst.off(s_) + T.zi(it.shape[0]), lst.off(s_ + 1) <= total, lst.off(s_) >= 0)))
+    return I.Arr((total,) + rest, lambda *i: cat(*[T.zi(x) for x in i]), probe.dtype)
+
+
 def is_lazy(v):
     return isinstance(v, (LazySeq, Stateful))
 
